@@ -196,7 +196,9 @@ func (a *App) indexFile(ctx context.Context, upload *db.Upload, p io.Reader, met
 		}
 	}
 	// Write a blank line to separate metadata from user-generated content.
-	fmt.Fprintf(fw, "\n")
+	if _, err := fmt.Fprintf(fw, "\n"); err != nil {
+		return err
+	}
 
 	// TODO(quentin): Add a separate goroutine and buffer for writes to fw?
 	tr := io.TeeReader(p, fw)
